@@ -43,6 +43,7 @@ pub struct St {
     pub outbound: Vec<u8>,
     pub budget: Option<usize>,            // None = unlimited
     pub write_plan: VecDeque<usize>,      // per write call: max bytes accepted (0 = one WouldBlock)
+    pub write_cycle: Vec<usize>,          // used (cyclically) once write_plan is exhausted
     pub fail_write_at: Option<u64>,       // the k-th write call (1-based) fails with EPIPE
     pub nreads: u64,
     pub nwrites: u64,
@@ -81,6 +82,7 @@ pub fn pair() -> (Net, MockStream) {
         outbound: Vec::new(),
         budget: None,
         write_plan: VecDeque::new(),
+        write_cycle: Vec::new(),
         fail_write_at: None,
         nreads: 0,
         nwrites: 0,
@@ -316,7 +318,11 @@ impl Write for MockStream {
                 }
                 return Err(io::ErrorKind::BrokenPipe.into());
             }
-            let plan = s.write_plan.pop_front();
+            let mut plan = s.write_plan.pop_front();
+            if plan.is_none() && !s.write_cycle.is_empty() && s.budget != Some(0) {
+                let k = (s.nwrites as usize) % s.write_cycle.len();
+                plan = Some(s.write_cycle[k]);
+            }
             let mut limit = buf.len();
             if let Some(b) = s.budget {
                 limit = limit.min(b);
